@@ -241,6 +241,9 @@ def worker(part, acc):
 
 
 def run(ctx):
+    from ..seams import validate as _validate_seams
+
+    seam_report = _validate_seams(PROP)  # real random sources under a recorder: every API reached must be modelled (else exit 2)
     rw = list(connected_hypergraphs(3, 4, 3)) + list(connected_hypergraphs(4, 3 if ctx.tier == "quick" else 11, 4))
     if ctx.tier == "thorough":
         rw += list(connected_hypergraphs(5, 3, 5))
@@ -257,6 +260,7 @@ def run(ctx):
     c = ct[(ctx.seed * 101 + 13) % len(ct)][1]
     ctx.sample({"contagion": {"nodes": list(c[0]), "edges": [list(e) for e in c[1]], "I0_bits": c[2], "T": c[3], "rates(beta,beta_D,mu)": list(c[4])}})
     cov = {
+        "seam_validation": seam_report,
         "states": len(oc), "transitions": ev, "traces_validated_against_impl": ev,
         "evaluations": ev, "distinct_nontrivial": len(nt), "exhaustive": True,
         "rule": "random walk: every connected hypergraph on 0..N-1 (N=3 all; N=4 <=3 hyperedges quick / all thorough; N=5 <=3 thorough) - K, stationary state, "
